@@ -254,7 +254,8 @@ def display_table(prog, eng, enum_name):
 
 def tokenizer_table(prog, eng):
     """spelling -> (token kind, variant) recovered from the path conditions of the token constructions."""
-    tk = prog.lib_fn("preprocessing::tokenizer::try_tokenize_recursive")
+    import workers
+    tk = workers.tokenizer_main(prog)
     # helpers of the tokenizer module are inlined, so that the table survives the extraction of an arm into a helper
     ieng = terms.Engine(prog, inline=True, hooks=E.Hooks(["preprocessing::tokenizer::"]))
     s = ieng.summary(tk)
